@@ -508,6 +508,12 @@ func (p *plugin) synchronize(ctx context.Context, pods []*PodSandbox, containers
 			if ctrsPerMsg > len(ctrsToSend) {
 				ctrsPerMsg = len(ctrsToSend)
 			}
+			// if scaling the chunk sizes left one list with a share of zero and
+			// the other list is now exhausted, go on with what is left
+			if podsPerMsg == 0 && ctrsPerMsg == 0 {
+				podsPerMsg = len(podsToSend)
+				ctrsPerMsg = len(ctrsToSend)
+			}
 		} else {
 			podsPerMsg, ctrsPerMsg, err = recalcObjsPerSyncMsg(podsPerMsg, ctrsPerMsg, err)
 			if err != nil {
